@@ -491,10 +491,20 @@ class HyperscanTokenizer(Tokenizer):
         # Get all matches, with byte offsets because hyperscan uses
         # bytes instead of unicode:
         text_bytes = text.encode("utf8")
-        matches = []
+        text_len = len(text_bytes)
+        # use a dict as an ordered set, to skip repeated matches
+        matches = {}
 
         def on_match(index, start, end, flags, context):
-            matches.append((self.extractors[index], (start, end)))
+            # Hyperscan matches bytes, so a class like [^a-zA-Z0-9] can match
+            # a single byte of a multi-byte character next to a citation.
+            # Widen such matches to whole characters (utf8 continuation bytes
+            # look like 0b10xxxxxx) instead of losing them:
+            while 0 < start < text_len and text_bytes[start] & 0xC0 == 0x80:
+                start -= 1
+            while end < text_len and text_bytes[end] & 0xC0 == 0x80:
+                end += 1
+            matches[(index, (start, end))] = None
 
         self.hyperscan_db.scan(text_bytes, match_event_handler=on_match)
 
@@ -523,7 +533,8 @@ class HyperscanTokenizer(Tokenizer):
         # the full text rather than against a substring, so that "^" can't
         # match at the start of the span and let an optional leading space
         # of the pattern swallow the boundary character:
-        for extractor, (start, end) in matches:
+        for index, (start, end) in matches:
+            extractor = self.extractors[index]
             if start in byte_to_str_offset and end in byte_to_str_offset:
                 start = byte_to_str_offset[start]
                 end = byte_to_str_offset[end]
